@@ -868,7 +868,14 @@ func mutatorFor(name string) mutator {
 				}
 			}
 			if !found {
-				return false
+				if name != "sd.storage.add" {
+					return false
+				}
+				if d.StorageDiffs == nil {
+					d.StorageDiffs = map[felt.Felt]map[felt.Felt]*felt.Felt{}
+				}
+				d.StorageDiffs[fresh] = map[felt.Felt]*felt.Felt{fresh: chainkit.F(1)}
+				return true
 			}
 			m := d.StorageDiffs[addr]
 			k := sortedKeys(m)[0]
